@@ -264,6 +264,16 @@ func genRec(r *gen.R, op string, validOnly bool) recCase {
 		c.exp = Expect{Kind: MustError, Why: err.Error()}
 		return c
 	}
+	// unbounded activations (relu as a gate function) can make the state overflow; the order in
+	// which intermediate infinities arise is not pinned by the recurrence: outside the domain
+	for _, t := range want {
+		for i := range t.Bits {
+			if v := t.F(i); v != v || math.Abs(v) > 1e6 {
+				c.ok = false
+				return c
+			}
+		}
+	}
 	kind, why := MustEqual, "valid float32 request"
 	if dt == ref.F64 {
 		kind, why = MayRefuse, "float64 may be refused"
@@ -326,6 +336,10 @@ func maxDiff(a, b *ref.T) float64 {
 func c06Run(c *Ctx) {
 	op := c.R.PickStr("RNN", "GRU", "GRU", "LSTM", "LSTM")
 	rc := genRec(c.R, op, false)
+	if !rc.ok {
+		c.Skip("the recurrence overflows with the drawn activations")
+		return
+	}
 	c.SetCase("%s", trunc(rc.req.Describe(), 1200))
 	desc := fmt.Sprintf("%s|%d,%d,%d,%d|%s|%s", op, rc.S, rc.B, rc.I, rc.H, rc.pattern, attrsString(rc.req))
 	if rc.exp.Kind == MustError || rc.discrim {
